@@ -1634,7 +1634,7 @@ pub async fn raw_client_app(ctx: Ctx, io: PipeEnd, cfg: EpCfg, specs: Vec<Stream
     };
     sim::spawn("client-conn", TaskKind::Conn, client_conn_task(ctx.clone(), conn, ctl.clone(), hooks));
     let done = Rc::new(RefCell::new(0u32));
-    sim::spawn("client-req", TaskKind::App, client_requester(ctx.clone(), sr, specs, done));
+    sim::spawn("client-req", TaskKind::App, client_requester(ctx.clone(), sr, specs, done, None));
 }
 
 pub fn plain_spec(idx: u32, method: &str, req_chunks: Vec<usize>, resp_chunks: Vec<usize>) -> StreamSpec {
